@@ -1,6 +1,253 @@
-//! C15 — not built yet.
-use crate::rt::*;
+//! C15 — serialization fails cleanly under I/O faults instead of corrupting or panicking.
+//!
+//! Fault model (all inside the std::io::Write / Read contracts):
+//!   ShortWriter(limits)   accepts at most limits[i mod len] (1..8) bytes on the i-th `write` call
+//!   FailingWriter(f)      accepts bytes normally and returns Err from the call that would cross offset f
+//!                         (variant "partial": accepts the bytes up to f first, then fails the next call)
+//!   TruncatedReader(n)    plain EOF (Ok(0)) after n bytes
+//!   ShortReader(limits)   returns at most limits[i mod len] (1..8) bytes per `read` call
+//! Enumeration: every object/format of the C14 zoo on small parameter sets; EVERY failure offset in
+//! [0,len] and EVERY truncation offset in [0,len) when len <= 4 KiB, otherwise every offset within 64
+//! bytes of a field boundary plus a stride and a random sample.
+//! Oracle: writer - Err, or Ok with exactly the reference encoding on the sink (anything else is a silent
+//! truncation); reader - every strict prefix yields Err; short reads of the whole encoding yield the
+//! original object; no panic anywhere.
 
-pub fn run(_cfg: &Cfg, _rep: &mut Report) -> PropMeta {
-    PropMeta { id: "C15", level: "exploration", rule: "not built", assumptions: vec![], exhaustive: false, floor: 1 }
+use super::c14::{build_zoo, byte_width, encode, gen_spec, Env, Item, Obj, ZooOpts};
+use crate::he::*;
+use crate::rt::*;
+use serde_json::json;
+use std::collections::BTreeMap;
+use std::io::{Read, Write};
+
+const P: &str = "C15";
+const FULL_ENUM_MAX: usize = 4096;
+
+// ------------------------------------------------------------------ faulty streams
+struct ShortWriter { sink: Vec<u8>, limits: Vec<usize>, i: usize }
+impl Write for ShortWriter {
+    fn write(&mut self, b: &[u8]) -> std::io::Result<usize> {
+        let k = b.len().min(self.limits[self.i % self.limits.len()]);
+        self.i += 1;
+        self.sink.extend_from_slice(&b[..k]);
+        Ok(k)
+    }
+    fn flush(&mut self) -> std::io::Result<()> { Ok(()) }
+}
+
+struct FailingWriter { sink: Vec<u8>, fail_at: usize, partial: bool }
+impl Write for FailingWriter {
+    fn write(&mut self, b: &[u8]) -> std::io::Result<usize> {
+        if self.sink.len() + b.len() > self.fail_at {
+            if self.partial && self.sink.len() < self.fail_at {
+                let k = self.fail_at - self.sink.len();
+                self.sink.extend_from_slice(&b[..k]);
+                return Ok(k);
+            }
+            return Err(std::io::Error::new(std::io::ErrorKind::Other, "injected write failure"));
+        }
+        self.sink.extend_from_slice(b);
+        Ok(b.len())
+    }
+    fn flush(&mut self) -> std::io::Result<()> { Ok(()) }
+}
+
+/// records the (offset, length) of every write call of the reference encoding: the field boundaries
+struct RecordingWriter { sink: Vec<u8>, calls: Vec<(usize, usize)> }
+impl Write for RecordingWriter {
+    fn write(&mut self, b: &[u8]) -> std::io::Result<usize> { self.calls.push((self.sink.len(), b.len())); self.sink.extend_from_slice(b); Ok(b.len()) }
+    fn flush(&mut self) -> std::io::Result<()> { Ok(()) }
+}
+
+struct TruncatedReader<'a> { data: &'a [u8], pos: usize }
+impl<'a> Read for TruncatedReader<'a> {
+    fn read(&mut self, b: &mut [u8]) -> std::io::Result<usize> {
+        let k = b.len().min(self.data.len() - self.pos);
+        b[..k].copy_from_slice(&self.data[self.pos..self.pos + k]);
+        self.pos += k;
+        Ok(k)
+    }
+}
+
+struct ShortReader<'a> { data: &'a [u8], pos: usize, limits: Vec<usize>, i: usize }
+impl<'a> Read for ShortReader<'a> {
+    fn read(&mut self, b: &mut [u8]) -> std::io::Result<usize> {
+        let k = b.len().min(self.data.len() - self.pos).min(self.limits[self.i % self.limits.len()]);
+        self.i += 1;
+        b[..k].copy_from_slice(&self.data[self.pos..self.pos + k]);
+        self.pos += k;
+        Ok(k)
+    }
+}
+
+fn schedules(rng: &mut Rng) -> Vec<(&'static str, Vec<usize>)> {
+    vec![
+        ("all_1", vec![1]),
+        ("all_3", vec![3]),
+        ("cycle_1_to_8", (1..=8).collect()),
+        ("random", (0..rng.range(3, 17)).map(|_| rng.range(1, 8) as usize).collect()),
+    ]
+}
+
+/// offsets to enumerate for an encoding: all of [0,len) when small, else neighbourhoods of field boundaries + samples
+fn offsets(len: usize, calls: &[(usize, usize)], rng: &mut Rng) -> (Vec<usize>, bool) {
+    if len <= FULL_ENUM_MAX { return ((0..len).collect(), true); }
+    let mut mark = vec![false; len];
+    let mut bounds: Vec<usize> = vec![0, len];
+    let mut prev_len = usize::MAX;
+    for &(off, l) in calls {
+        // a field boundary: every multi-byte scalar, and every point where the call size changes (start/end of a byte run)
+        if l != 1 || prev_len != 1 { bounds.push(off); bounds.push(off + l); }
+        prev_len = l;
+    }
+    for b in bounds { let lo = b.saturating_sub(64); let hi = (b + 64).min(len); for x in lo..hi { mark[x] = true; } }
+    let mut x = 0; while x < len { mark[x] = true; x += 61; }
+    for _ in 0..64 { mark[rng.usize_below(len)] = true; }
+    ((0..len).filter(|&i| mark[i]).collect(), false)
+}
+
+struct Obs<'a> { cfg: &'a Cfg, grp: &'a str, case: u64, spec: &'a Spec }
+
+fn viol(o: &Obs, rep: &mut Report, ty: &str, fault: &str, kind: &str, detail: String, label: &str) {
+    rep.violation(&format!("{}|{}|{}|{}", P, ty, fault, kind), format!("{} ; object `{}` ; params {}", detail, label, o.spec.describe()),
+        replay_json(o.cfg, o.grp, o.case, json!({"params": o.spec.describe(), "object": label, "type": ty, "fault": fault})));
+}
+
+fn first_diff(a: &[u8], b: &[u8]) -> usize { a.iter().zip(b).position(|(x, y)| x != y).unwrap_or(a.len().min(b.len())) }
+
+/// all faults on one object
+fn fault_object(o: &Obs, rep: &mut Report, env: &Env, item: &Item, rng: &mut Rng) {
+    let obj = &item.obj;
+    let ty = obj.type_name();
+    let scheme = o.spec.scheme_name();
+    // reference encoding (in-memory Vec writer) and its field boundaries
+    let mut rec = RecordingWriter { sink: vec![], calls: vec![] };
+    let reference = match lib(|| obj.write(env, &mut rec)) {
+        Ok(Ok(_)) => rec.sink.clone(),
+        _ => { rep.count("skipped", "reference_encoding_failed (C14 reports it)"); return; }
+    };
+    let expected = match lib(|| obj.expected(env)) { Ok(e) => e, Err(_) => { rep.count("skipped", "expand_failed"); return; } };
+    let len = reference.len();
+    rep.min("encoding_bytes", len as f64); rep.max("encoding_bytes", len as f64);
+    let (offs, complete) = offsets(len, &rec.calls, rng);
+    rep.count("offset_enumeration", if complete { "every_offset" } else { "boundaries_and_samples" });
+    rep.count("objects_by_type", &ty);
+    let mut runs = 0u64;
+
+    // ---- short writes
+    for (name, limits) in schedules(rng) {
+        let mut w = ShortWriter { sink: vec![], limits: limits.clone(), i: 0 };
+        let r = lib(|| obj.write(env, &mut w));
+        runs += 1;
+        rep.count("fault_runs", &format!("short_write|{}", name));
+        match r {
+            Err(p) => viol(o, rep, &ty, "short_write", "panic", format!("serialize panicked under the write schedule {} {:?}: {}", name, limits, p.0), &item.label),
+            Ok(Err(_)) => rep.count("clean_outcomes", "short_write|Err"),
+            Ok(Ok(ret)) => {
+                if w.sink == reference { rep.count("clean_outcomes", "short_write|complete"); }
+                else {
+                    viol(o, rep, &ty, "short_write", "silent_truncation",
+                        format!("serialize returned Ok({}) although the writer (accepting at most {:?} bytes per call, schedule {}) received {} of the {} bytes of the encoding; first difference at offset {}", ret, limits, name, w.sink.len(), len, first_diff(&w.sink, &reference)), &item.label);
+                }
+            }
+        }
+    }
+    // ---- failing writer at every offset f in [0, len]
+    for partial in [false, true] {
+        let fault = if partial { "failing_write_partial" } else { "failing_write" };
+        let mut fs = offs.clone(); fs.push(len);
+        for &f in &fs {
+            let mut w = FailingWriter { sink: Vec::with_capacity(f), fail_at: f, partial };
+            let r = lib(|| obj.write(env, &mut w));
+            runs += 1;
+            match r {
+                Err(p) => viol(o, rep, &ty, fault, "panic", format!("serialize panicked when the writer failed at offset {} of {}: {}", f, len, p.0), &item.label),
+                Ok(Err(_)) => { if f == len { viol(o, rep, &ty, fault, "spurious_error", format!("serialize returned Err although the writer never failed (failure offset {} = length)", f), &item.label); } }
+                Ok(Ok(ret)) => if w.sink != reference {
+                    viol(o, rep, &ty, fault, "silent_truncation", format!("serialize returned Ok({}) although the writer failed at offset {} of {}; the sink holds {} bytes", ret, f, len, w.sink.len()), &item.label);
+                },
+            }
+        }
+        rep.count_n("fault_runs", fault, fs.len() as u64);
+    }
+    // ---- truncated reads: every strict prefix must be refused with Err
+    let mut n_panic = 0u64; let mut n_ok = 0u64; let mut first: Option<(usize, String)> = None;
+    for &n in &offs {
+        let mut r = TruncatedReader { data: &reference[..n], pos: 0 };
+        let got = lib(|| obj.read_like(env, &mut r));
+        runs += 1;
+        match got {
+            Err(p) => { n_panic += 1; if first.is_none() { first = Some((n, p.0)); } }
+            Ok(Ok(_)) => { n_ok += 1; viol(o, rep, &ty, "truncated_read", "accepted", format!("deserialize returned Ok(_) for the first {} of {} bytes of a valid encoding", n, len), &item.label); }
+            Ok(Err(_)) => {}
+        }
+    }
+    rep.count_n("fault_runs", "truncated_read", offs.len() as u64);
+    if n_panic > 0 {
+        let (n, msg) = first.unwrap();
+        viol(o, rep, &ty, "truncated_read", "panic", format!("deserialize panicked for {} of the {} enumerated strict prefixes of a {}-byte encoding (first: prefix of {} bytes: {})", n_panic, offs.len(), len, n, msg), &item.label);
+    }
+    rep.count_n("clean_outcomes", "truncated_read|Err", offs.len() as u64 - n_panic - n_ok);
+    // ---- short reads of the complete encoding must restore the object
+    for (name, limits) in schedules(rng) {
+        let mut r = ShortReader { data: &reference, pos: 0, limits: limits.clone(), i: 0 };
+        let got = lib(|| obj.read_like(env, &mut r));
+        let pos = r.pos;
+        runs += 1;
+        rep.count("fault_runs", &format!("short_read|{}", name));
+        match got {
+            Err(p) => viol(o, rep, &ty, "short_read", "panic", format!("deserialize panicked under the read schedule {} {:?}: {}", name, limits, p.0), &item.label),
+            Ok(Err(e)) => viol(o, rep, &ty, "short_read", "error", format!("deserialize of the complete encoding failed under the read schedule {} {:?}: {}", name, limits, e), &item.label),
+            Ok(Ok(g)) => {
+                let d = lib(|| expected.diff(&g, env)).unwrap_or(Some(("compare_panicked".into(), String::new())));
+                if d.is_some() || pos != len { viol(o, rep, &ty, "short_read", "value", format!("object restored through short reads ({} {:?}) differs: {:?}; consumed {} of {}", name, limits, d, pos, len), &item.label); }
+                else { rep.count("clean_outcomes", "short_read|restored"); }
+            }
+        }
+    }
+    rep.evals(runs);
+    rep.distinct_key(&format!("{}|{}|{}|len{}", ty, scheme, obj.attrs(env), len / 64));
+    if rep.samples.len() < 6 && ty.starts_with("Ciphertext") {
+        rep.sample(json!({"params": o.spec.describe(), "object": item.label, "type": ty, "encoding_bytes": len, "offsets_enumerated": offs.len(), "every_offset": complete,
+            "write_calls_of_reference": rec.calls.len(), "truncated_read_panics": n_panic, "truncated_read_accepted": n_ok, "fault_runs": runs}));
+    }
+}
+
+fn one_case(cfg: &Cfg, grp: &str, case: u64, rng: &mut Rng, rep: &mut Report) {
+    let Some(spec) = gen_spec(rng, &[4, 8, 16], 3, 33) else { rep.count("generator", "no_primes_for_sizes"); return; };
+    let opts = ZooOpts { max_size: 4, light: false, rnsp: rng.chance(1, 2), terms_ntt_max_n: 64 };
+    let zoo = match build_zoo(&spec, rng, &opts) { Ok(z) => z, Err(_) => { rep.count("generator", "context_rejected"); return; } };
+    rep.count("generator", "context_ok");
+    rep.count("params", &format!("{}|n={}|k={}", spec.scheme_name(), spec.n, spec.qs.len()));
+    for &q in &spec.qs { rep.count("coeff_prime_bytes", &byte_width(q).to_string()); }
+    let o = Obs { cfg, grp, case, spec: &spec };
+    // per case: a bounded number of instances of every type/format, chosen at random; encodings of at most 8 KiB
+    let cap = cfg.pick(2usize, 4usize);
+    let mut by_type: BTreeMap<String, Vec<usize>> = BTreeMap::new();
+    for (i, it) in zoo.items.iter().enumerate() { if !it.out_of_domain { by_type.entry(it.obj.type_name()).or_default().push(i); } }
+    for (_, mut idx) in by_type {
+        rng.shuffle(&mut idx);
+        let mut taken = 0;
+        for i in idx {
+            if taken >= cap { break; }
+            let item = &zoo.items[i];
+            match encode(&item.obj, &zoo.env) { Ok(Ok((_, b))) if b.len() <= 8192 => {}, Ok(Ok(_)) => { rep.count("skipped", "encoding_above_8KiB"); continue; } _ => continue }
+            fault_object(&o, rep, &zoo.env, item, rng);
+            taken += 1;
+        }
+    }
+}
+
+pub fn run(cfg: &Cfg, rep: &mut Report) -> PropMeta {
+    run_cases(cfg, "faults", cfg.n(400, 4000) as u64, rep, |i, rng, rep| one_case(cfg, "faults", i, rng, rep));
+    PropMeta {
+        id: "C15", level: "fault_enumeration",
+        rule: "for every generated object (the C14 zoo: every serializable type and format, N in {4,8,16}, 1..3 primes on byte-width edges, all schemes; 2 (quick) / 4 (thorough) random instances per type per parameter set; encodings 8 B..8 KiB): short-write schedules all-1, all-3, 1..8 cycling, random; a failing writer at EVERY offset f in [0,len] (hard and after-partial-accept variants); a truncated reader at EVERY offset n in [0,len); short-read schedules. `exhaustive` refers to the offset dimension of the encodings of at most 4096 bytes (table offset_enumeration: every_offset); larger encodings use all offsets within 64 bytes of a field boundary (start/end of every multi-byte scalar and of every byte run) + stride 61 + 64 random offsets; the object dimension is sampled",
+        assumptions: vec![
+            "the reference encoding is the one produced through an in-memory writer (its correctness is C14)".into(),
+            "a panic is observed through catch_unwind; one panic signature per type and direction, the count of panicking offsets is in the detail".into(),
+            "fault streams stay inside the std::io contracts: Ok(k) with 1 <= k <= buf.len() for non-empty buffers, Err, or Ok(0) at end of input".into(),
+        ],
+        exhaustive: true, floor: 20000,
+    }
 }
